@@ -18,8 +18,11 @@ import (
 	"perkeep.org/pkg/index"
 	"perkeep.org/pkg/jsonsign"
 	"perkeep.org/pkg/schema"
+	"perkeep.org/pkg/search"
 	"perkeep.org/pkg/test"
 	"perkeep.org/pkg/types/camtypes"
+
+	"go4.org/types"
 
 	"verifharness/hk"
 )
@@ -166,6 +169,42 @@ type world struct {
 	nextLoad bool
 	maxID    int
 	content  map[string]bool // what was delivered, by content: the same claim twice is the same blob
+	handlers map[handlerKey]*search.Handler
+}
+
+type handlerKey struct {
+	ix    *index.Index
+	owner int
+}
+
+// handler returns the search handler over the index of the given path, owned by signer s.  (A
+// search.Handler starts two goroutines and registers with the blob hub for good: the generator asks
+// for describes in a bounded number of cases.)
+func (w *world) handler(mode string, s int) (*search.Handler, bool) {
+	var ix *index.Index
+	switch mode {
+	case "idx":
+		ix = w.ixA
+	case "inc":
+		ix = w.ixB
+	case "load":
+		if _, err := w.loaded(); err != nil {
+			return nil, false
+		}
+		ix = w.ixC
+	default:
+		return nil, false
+	}
+	k := handlerKey{ix, s}
+	if h := w.handlers[k]; h != nil {
+		return h, true
+	}
+	if w.handlers == nil {
+		w.handlers = map[handlerKey]*search.Handler{}
+	}
+	h := search.NewHandler(ix, index.NewOwner(w.ss[s].keyID, w.ss[s].ref))
+	w.handlers[k] = h
+	return h, true
 }
 
 func newWorld() *world {
@@ -514,6 +553,34 @@ func (w *world) exec(a []string) string {
 			return "err"
 		}
 		return w.ids(cls)
+
+	case "desc": // desc <mode> <p> <attr> <T> <s>: search.Handler.Describe of the permanode
+		if len(a) != 6 || (a[5] != "0" && a[5] != "1") {
+			return "bad-op"
+		}
+		pn, ok1 := w.pnArg(a[2])
+		attr, ok2 := textArg(a[3])
+		at, ok3 := parseT(a[4])
+		if !ok1 || !ok2 || !ok3 {
+			return "bad-op"
+		}
+		h, ok := w.handler(a[1], int(a[5][0]-'0'))
+		if !ok {
+			return "bad-op"
+		}
+		dr := &search.DescribeRequest{BlobRef: pn, Depth: 1}
+		if !at.IsZero() {
+			dr.At = types.Time3339(at)
+		}
+		res, err := h.Describe(ctxbg, dr)
+		if err != nil || res == nil {
+			return "err"
+		}
+		db := res.Meta.Get(pn)
+		if db == nil || db.Permanode == nil {
+			return "nometa"
+		}
+		return showVals(db.Permanode.Attr[attr])
 
 	case "order": // order <mode> <p>: pm.Claims as they stand
 		if len(a) != 3 {
